@@ -1656,7 +1656,12 @@ func r8SeparatorSet(w *World, r *Report, rule string) {
 				switch x := in.(type) {
 				case *ssa.Store:
 					if fa, ok := x.Addr.(*ssa.FieldAddr); ok {
-						if st, isSt := fa.X.Type().Underlying().(*types.Pointer).Elem().Underlying().(*types.Struct); isSt && st.Field(fa.Field).Name() == "pos" {
+						pt, isPtr := fa.X.Type().Underlying().(*types.Pointer)
+						if !isPtr {
+							continue
+						}
+						named, isNamed := pt.Elem().(*types.Named)
+						if st, isSt := pt.Elem().Underlying().(*types.Struct); isSt && isNamed && named.Obj().Name() == "lexer" && st.Field(fa.Field).Name() == "pos" {
 							why = g.Name() + " sets the position itself"
 						}
 					}
@@ -1938,7 +1943,20 @@ func r8RangeLoopLeavesOnAcceptance(w *World, r *Report, rule string) {
 		sym := NewSym(w)
 		sym.Expand = false
 		n, why := 0, ""
-		for _, l := range ssaLoops(f) {
+		type where struct {
+			g *ssa.Function
+			l ssaLoop
+		}
+		var loops []where
+		for _, g := range bodiesDeep(f, 1) { // the loop may have been handed to a helper of the package
+			if g.Pkg == f.Pkg {
+				for _, l := range ssaLoops(g) {
+					loops = append(loops, where{g, l})
+				}
+			}
+		}
+		for _, wl := range loops {
+			l := wl.l
 			body := l.body()
 			var asked []*ssa.Call
 			for b := range body {
